@@ -232,5 +232,74 @@ theorem omToHashmap_spec (m : OMap Payload) (hw : omWf m) :
     exact this
   · simpa [omLen, omToHashmap] using h3
 
+
+/-! ### Positions over a step and over a history -/
+
+theorem positions_stable (f : Forest) (hi : f.Inv) (op : MapOp2) (hok : op.ok f = true)
+    (x : Nat) (k : MapKind) :
+    KNStep (absKN k f x) (absKN k (op.run f).1 x) ∧
+    (omKeys (abs k (op.run f).1 x) = omKeys (abs k f x) →
+      absNodes k (op.run f).1 x = absNodes k f x) ∧
+    (∀ key hd, (key, hd) ∈ absKN k f x → key ∈ omKeys (abs k (op.run f).1 x) →
+      (key, hd) ∈ absKN k (op.run f).1 x) ∧
+    (∀ p q, p ∈ absKN k f x → q ∈ absKN k f x → p ∈ absKN k (op.run f).1 x →
+      q ∈ absKN k (op.run f).1 x →
+      ([p, q].Sublist (absKN k f x) ↔ [p, q].Sublist (absKN k (op.run f).1 x))) := by
+  obtain ⟨_, s⟩ := step_all hi (F := famOf f) (fun _ _ => rfl) op hok
+  have hkn := s.kn x k
+  refine ⟨hkn, ?_, ?_, ?_⟩
+  · intro hk
+    rw [← absKN_fst, ← absKN_fst] at hk
+    rw [← absKN_snd, ← absKN_snd, knstep_same_keys hkn hk]
+  · intro key hd hm hk
+    rw [← absKN_fst] at hk
+    have ho : ((absKN k f x).map (·.1)).Nodup := by
+      rw [absKN_fst]; exact unique_keys_of_inv f hi k x
+    exact knstep_keeps_node hkn ho key hd hm hk
+  · intro p q h1 h2 h3 h4
+    exact knstep_pair_iff hkn (absKN_nodup hi k x) (absKN_nodup s.inv k x) p q h1 h2 h3 h4
+
+theorem positions_history (f : Forest) (hi : f.Inv) (ops : List MapOp2)
+    (hok : (runOps2 f ops).2.2 = true) (x : Nat) (k : MapKind) (p q : Nat × Nat)
+    (hall : ∀ g ∈ trace2 f ops, p ∈ absKN k g x ∧ q ∈ absKN k g x) :
+    [p, q].Sublist (absKN k f x) ↔ [p, q].Sublist (absKN k (runOps2 f ops).1 x) := by
+  obtain ⟨_, _, _, _, h5, h6⟩ := history_all ops f (famOf f) hi (fun _ _ => rfl) hok
+  obtain ⟨rest, hrest⟩ := trace2_head f ops
+  have hl := trace2_last ops f
+  rw [hrest] at h5 h6 hall hl
+  exact kept_order rest f h6 h5 x k p q hall _ hl
+
+
+/-- Along a trace of `Stable` steps, an entry whose key is in the view in every state is carried
+    by the same node in every state. -/
+theorem kept_node : ∀ (tr : List Forest) (f : Forest), StableTrace (f :: tr) →
+    (∀ g ∈ f :: tr, g.Inv) → ∀ (x : Nat) (k : MapKind) (key hd : Nat),
+    (key, hd) ∈ absKN k f x → (∀ g ∈ f :: tr, key ∈ omKeys (abs k g x)) →
+    ∀ g ∈ f :: tr, (key, hd) ∈ absKN k g x
+  | [], f => by
+    intro _ _ x k key hd h0 _ g hg
+    simp only [List.mem_singleton] at hg
+    rw [hg]; exact h0
+  | b :: tr, f => by
+    intro hst hinv x k key hd h0 hall g hg
+    rcases List.mem_cons.mp hg with hg | hg
+    · rw [hg]; exact h0
+    · have ho : ((absKN k f x).map (·.1)).Nodup := by
+        rw [absKN_fst]; exact unique_keys_of_inv f (hinv f List.mem_cons_self) k x
+      have hb : (key, hd) ∈ absKN k b x :=
+        knstep_keeps_node (hst.1 x k) ho key hd h0 (by
+          rw [absKN_fst]; exact hall b (List.mem_cons_of_mem _ List.mem_cons_self))
+      exact kept_node tr b hst.2 (fun g hg => hinv g (List.mem_cons_of_mem _ hg)) x k key hd hb
+        (fun g hg => hall g (List.mem_cons_of_mem _ hg)) g hg
+
+theorem history_keeps_node (f : Forest) (hi : f.Inv) (ops : List MapOp2)
+    (hok : (runOps2 f ops).2.2 = true) (x : Nat) (k : MapKind) (key hd : Nat)
+    (h0 : (key, hd) ∈ absKN k f x) (hall : ∀ g ∈ trace2 f ops, key ∈ omKeys (abs k g x)) :
+    ∀ g ∈ trace2 f ops, (key, hd) ∈ absKN k g x := by
+  obtain ⟨_, _, _, _, h5, h6⟩ := history_all ops f (famOf f) hi (fun _ _ => rfl) hok
+  obtain ⟨rest, hrest⟩ := trace2_head f ops
+  rw [hrest] at h5 h6 hall ⊢
+  exact kept_node rest f h6 h5 x k key hd h0 hall
+
 end Fmap
 end XotModel
